@@ -306,6 +306,90 @@ fn s4(ctx: &mut Ctx) {
     t.into_part(ctx, part);
 }
 
+/// S5: histories of two codec calls on the same thread (state carried between calls must not exist):
+/// all ordered pairs over an alphabet of compress calls (fitting and not fitting) and decompress
+/// calls (accepted and rejected); each call's result is compared with the reference on its own.
+fn s5(ctx: &mut Ctx, thorough: bool) {
+    #[derive(Clone)]
+    enum Call {
+        C(Vec<i16>, usize),
+        D(Vec<u8>, usize),
+    }
+    let mut calls: Vec<Call> = vec![];
+    let small: Vec<i16> = if thorough { vec![0, 1, -1, 127, -128, 129, -255, 256, 12159] } else { vec![0, -1, 127, -128, 256, 12159] };
+    let mut vectors: Vec<Vec<i16>> = vec![];
+    for &a in &small {
+        vectors.push(vec![a]);
+        for &b in &small {
+            vectors.push(vec![a, b]);
+        }
+    }
+    // production-size vectors: one that fits 625 bytes and one that does not
+    vectors.push((0..512).map(|i| ((i * 37) % 200 - 100) as i16).collect());
+    vectors.push(vec![-300i16; 512]);
+    vectors.push((0..512).map(|i| if i % 2 == 0 { 255 } else { -1 }).collect());
+    for v in &vectors {
+        let vi: Vec<i64> = v.iter().map(|&a| a as i64).collect();
+        let fit = (codec::bits_of(&vi) + 7) / 8;
+        let budgets: Vec<usize> = if v.len() >= 512 { vec![625] } else { vec![fit.saturating_sub(1), fit, fit + 2] };
+        for l in budgets {
+            calls.push(Call::C(v.clone(), l));
+            if let Some(x) = codec::compress(&vi, l) {
+                calls.push(Call::D(x.clone(), v.len()));
+                let mut y = x.clone();
+                let last = y.len() - 1;
+                y[last] ^= 1; // padding bit or damaged last coefficient
+                calls.push(Call::D(y, v.len()));
+            }
+        }
+    }
+    let ncalls = calls.len();
+    let judge_call = |c: &Call| -> Result<(), (&'static str, String)> {
+        match c {
+            Call::C(v, l) => judge_compress(v, *l).map(|_| ()),
+            Call::D(x, n) => judge_decompress(x, *n).map(|_| ()),
+        }
+    };
+    let res: Vec<(u64, Vec<Found>)> = (0..ncalls)
+        .into_par_iter()
+        .map(|i| {
+            let mut f = vec![];
+            let mut cnt = 0;
+            for j in 0..ncalls {
+                cnt += 1;
+                let first = judge_call(&calls[i]);
+                let second = judge_call(&calls[j]);
+                for (pos, r) in [(0, first), (1, second)] {
+                    if let Err((class, what)) = r {
+                        if f.len() < 2 {
+                            let (kind, desc) = match (&calls[i], &calls[j]) {
+                                (Call::C(..), Call::C(..)) => ("compress;compress", "two compress calls"),
+                                (Call::C(..), Call::D(..)) => ("compress;decompress", "compress then decompress"),
+                                (Call::D(..), Call::C(..)) => ("decompress;compress", "decompress then compress"),
+                                _ => ("decompress;decompress", "two decompress calls"),
+                            };
+                            f.push(found(format!("history:{}:{}", kind, class), format!("in a history of {} on one thread, call {} fails its own oracle: {}", desc, pos + 1, what), json!({"kind":"pair","first":i,"second":j})));
+                        }
+                    }
+                }
+            }
+            (cnt, f)
+        })
+        .collect();
+    let mut part = Part::new("S5_call_histories", &format!("all {}^2 ordered pairs of codec calls executed back to back on one thread, over an alphabet of {} calls: compress of vectors in A^n' (n' <= 2) and three 512-coefficient vectors with budgets fit-1 / fit / fit+2 (or 625), and decompress of the resulting strings and of damaged copies; every call is judged by its own reference result, so state leaking from one call into the next is visible", ncalls, ncalls));
+    for (c, f) in res {
+        part.states += c;
+        part.transitions += 2 * c;
+        part.validated += 2 * c;
+        for x in f {
+            ctx.violation(x.key, x.what, x.case);
+        }
+    }
+    part.outcome(format!("alphabet {}", ncalls));
+    part.exhaustive = true;
+    ctx.add_part(part);
+}
+
 pub fn run(tier: Tier) {
     let mut ctx = Ctx::new("C07", tier);
     s1(&mut ctx, true);
@@ -316,6 +400,7 @@ pub fn run(tier: Tier) {
         s3(&mut ctx, 24, 10);
     }
     s4(&mut ctx);
+    s5(&mut ctx, tier.thorough());
     ctx.sample(json!({"string":"0103ff","n":3,"reference":format!("{:?}", codec::decompress(&[1,3,0xff],3)),"impl":format!("{:?}", catch(|| fh::decompress(&[1,3,0xff],3)))}));
     ctx.sample(json!({"vector":[1,-129,12159],"budget":8,"impl":format!("{:?}", catch(|| fh::compress(&[1,-129,12159],16)).map(|c| c.map(|c| hex(&c))))}));
     ctx.assume("reference = bit-level Algorithms 17/18 with unbounded unary run (validated against PQClean comp_encode/comp_decode at setup)");
@@ -331,6 +416,7 @@ pub fn replay(case: &Value) -> Result<Option<String>, String> {
             let x = unhex(case.get("hex").and_then(|k| k.as_str()).ok_or("hex")?);
             Ok(judge_decompress(&x, n).err().map(|e| e.1))
         }
+        "pair" => Err("re-run ./vf check C07 (the pair alphabet is enumerated deterministically)".into()),
         "compress" => {
             let v: Vec<i16> = case.get("v").and_then(|x| x.as_array()).ok_or("v")?.iter().map(|x| x.as_i64().unwrap_or(0) as i16).collect();
             let l = case.get("l").and_then(|x| x.as_u64()).ok_or("l")? as usize;
